@@ -112,6 +112,22 @@ class Routes:
             ChangeScalars(o, a=(None, v))
             self.cmp("ChangeScalars", o.a.value, [r0], case, au, av, [x0])
             self.meta("ChangeScalars", o.a, c, qt, v, case)
+            # several scalars in one call; requests that change nothing (the unit it already has, (None, None)) among them,
+            # before and after the real one: every scalar named is re-expressed as asked
+            for order in (("same", "none", "real"), ("real", "same", "none"), ("none", "real", "same")):
+                o = Owner()
+                o.same, o.none, o.real = Scalar(c, x0, u), Scalar(c, x0, u), Scalar(c, x0, u)
+                req = {"same": (None, u), "none": (None, None), "real": (None, v)}
+                ChangeScalars(o, **{k: req[k] for k in order})
+                self.cmp("ChangeScalars(several, %s)" % "/".join(order), o.real.value, [r0], case, au, av, [x0])
+                self.meta("ChangeScalars(several, %s)" % "/".join(order), o.real, c, qt, v, case)
+                self.cmp("ChangeScalars(several, %s) untouched ones" % "/".join(order), [o.same.value, o.none.value], [float(x0), float(x0)], case, None, None, [x0, x0])
+            o = Owner()
+            o.a, o.b = Scalar(c, x0, u), Scalar(c, x0, v)
+            ChangeScalars(o, a=(7.0, None), b=(float(x0), u))  # value only; value and unit (the value is given in that unit)
+            self.cmp("ChangeScalars(value only)", [o.a.value, o.b.value], [7.0, float(x0)], case, None, None, [7.0, x0])
+            self.meta("ChangeScalars(value only)", o.a, c, qt, u, case)
+            self.meta("ChangeScalars(value and unit)", o.b, c, qt, u, case)
             q = ObtainQuantity(u, c)
             self.cmp("Quantity.ConvertScalarValue", q.ConvertScalarValue(float(x0), v), [r0], case, au, av, [x0])
             self.cmp("Quantity.Convert(float)", q.Convert(float(x0), v), [r0], case, au, av, [x0])
